@@ -940,7 +940,7 @@ fn alloc_configs(tier: Tier) -> Vec<(Cfg, Plan)> {
             // thorough: one level deeper for a representative subset
             let deep = !quick && matches!(balign, 1 | 8) && matches!(bsize, 1 | 3 | 8 | 12 | 33) && kind != Kind::Fixed2;
             let depth = if quick { 4 } else if deep { 6 } else { 5 };
-            let frontier = if quick { Some((1200, 8)) } else { Some((8000, 10)) };
+            let frontier = if quick { Some((500, 8)) } else { Some((8000, 10)) };
             let plan = Plan { tree_depth: 1 + depth, finish_prefixes: false, frontier, split: if deep { 6 } else { 1 } };
             out.push((Cfg::Alloc(ACfg { kind, bsize, balign, full_ops: false, geoms }), plan));
         }
@@ -961,6 +961,10 @@ fn alloc_configs(tier: Tier) -> Vec<(Cfg, Plan)> {
         for &(bsize, balign) in full_layouts {
             for &(mis, n) in &[(1usize, 2usize), (0, 1)] {
                 if kind == Kind::Fixed8 && n == 1 {
+                    continue;
+                }
+                // quick: two buckets (the expensive case) once per allocator kind
+                if quick && n == 2 && !matches!((kind, bsize), (Kind::Pool, 8) | (Kind::ShmPool, 3) | (Kind::Fixed8, 8)) {
                     continue;
                 }
                 let region = pool_region(bsize, balign, mis, n, bsize - 1);
@@ -1027,7 +1031,7 @@ impl Harness for H {
         "C15"
     }
     fn rule(&self) -> String {
-        "(a) the first operation of every sequence builds the allocator over one of the region geometries of the configuration (start misaligned by 0/1/align-1, room for 0..4 buckets plus a partial one), followed by every sequence of allocate(size in {0,1,b-1,b,b+1} x align in {1,a,2a}) / allocate_zeroed / deallocate(k-th live) / grow / shrink / reset up to the tree depth on the real PoolAllocator, FixedSizePoolAllocator<2|8>, bb BumpAllocator, OneChunkAllocator, cal shm PoolAllocator and shm BumpAllocator for every bucket layout (sizes 1..33 and 100/128/4096 x alignments 1..64 and 4096, including sizes that are not multiples of the alignment), checked after every step against an interval model: inside the region, requested alignment, requested size writable (unique byte pattern per allocation, all live patterns and the guard zones verified after every step), pairwise disjoint, success iff the model has a free bucket / enough room, documented error variant otherwise, everything allocatable again after release. (b) every sequence of loan_slice(len in {1,2,5,9}; quick tier with a dynamic strategy: {1,5,9})+send / receive / drop held sample on a local publish-subscribe service with [u8] or [u64] payload, initial_max_slice_len(1) and AllocationStrategy Static/BestFit/PowerOfTwo: every held sample stays byte-identical across growth of the data segment, samples received after growth are correct, Static refuses a longer loan with ExceedsMaxLoanSize. A distinct state is the canonical model state (live allocations relative to the region start / queue and held samples).".into()
+        "(a) the first operation of every sequence builds the allocator over one of the region geometries of the configuration (start misaligned by 0/1/align-1, room for 0..4 buckets plus a partial one), followed by every sequence of allocate(size in {0,1,b-1,b,b+1} x align in {1,a,2a}) / allocate_zeroed / deallocate(k-th live) / grow / shrink / reset up to the tree depth on the real PoolAllocator, FixedSizePoolAllocator<2|8>, bb BumpAllocator, OneChunkAllocator, cal shm PoolAllocator and shm BumpAllocator for every bucket layout (sizes 1..33 and 100/128/4096 x alignments 1..64 and 4096, including sizes that are not multiples of the alignment), checked after every step against an interval model: inside the region, requested alignment, requested size writable (unique byte pattern per allocation, all live patterns and the guard zones verified after every step), pairwise disjoint, success iff the model has a free bucket / enough room, documented error variant otherwise, everything allocatable again after release. (b) every sequence of loan_slice(len in {1,2,5,9}; quick tier with a dynamic strategy: {1,5,9} / {5,9})+send / receive / drop held sample on a local publish-subscribe service with [u8] or [u64] payload, initial_max_slice_len(1) and AllocationStrategy Static/BestFit/PowerOfTwo: every held sample stays byte-identical across growth of the data segment, samples received after growth are correct, Static refuses a longer loan with ExceedsMaxLoanSize. A distinct state is the canonical model state (live allocations relative to the region start / queue and held samples).".into()
     }
     fn configs(&self, tier: Tier) -> Vec<(Cfg, Plan)> {
         // the port-level workers run longest: queue them first
